@@ -8,6 +8,8 @@ Signatures are symbolic: `W.sigOK pub msg sig` is the primitive's verdict (perfe
 abstraction); every theorem holds for every such oracle.
 -/
 import InToto.Proofs.PipeSigs
+import InToto.Generated.Facts
+import InToto.Model.StageOrder
 
 namespace InToto.C01
 open InToto InToto.Json InToto.Schema InToto.Metadata InToto.Verify InToto.PipeProofs
@@ -82,5 +84,12 @@ theorem signature_stage_example :
                                   pemHasCert := fun _ => false, exec := fun _ => ⟨false, 0, [], []⟩ }
     verifyLayoutSigs (W true) m [(lit% "ab", k)] = .ok () ∧ (verifyLayoutSigs (W false) m [(lit% "ab", k)]).isOk = false := by
   decide
+
+/-- REGENERATED FACT (stage order, `Model/StageOrder.lean`): in both entry points of /repo's current
+    source the very first verification stage is one unconditional call of `VerifyLayoutSignatures` -
+    before links are loaded, before anything is trusted, before any inspection runs -/
+theorem facts_signatures_come_first :
+    (StageOrder.first Generated.stagesInTotoVerify "VerifyLayoutSignatures" && StageOrder.beforeAll Generated.stagesInTotoVerify "VerifyLayoutSignatures" ["VerifyLayoutExpiration", "LoadLinksForLayout", "VerifyLinkSignatureThesholds", "VerifySublayouts", "VerifyArtifacts", "RunInspections", "GetSummaryLink"]) = true ∧
+    (StageOrder.first Generated.stagesInTotoVerifyWithDirectory "VerifyLayoutSignatures" && StageOrder.beforeAll Generated.stagesInTotoVerifyWithDirectory "VerifyLayoutSignatures" ["VerifyLayoutExpiration", "LoadLinksForLayout", "VerifyLinkSignatureThesholds", "VerifySublayouts", "VerifyArtifacts", "RunInspections", "GetSummaryLink"]) = true := by decide
 
 end InToto.C01
